@@ -18,7 +18,8 @@ Driver for C09 (collections). One output line per input line.
   at run time): the model knows no such message: the state is unchanged; output `raw <state> res=<ok|err>` with the
   outcome of the call behind ` ## `
 * `migrate to=<base|nt|updatable|onchain>`  (chain-level migrate to that collection's code; `to` defaults to updatable)
-* `setver v=<a.b.c>`  (environment: the stored cw2 version)
+* `setver v=<a.b.c> [drop=1]`  (environment: the stored cw2 version; `drop=1` also removes the `royalty_updated_at` item =
+  the faithful storage layout of a release below 3.1.0, `XOp.dropRoyaltyStamp`)
 
 Output: `ok <primary> ## <drift>` / `err …` (state after the line; `-` when no collection exists), see `renderState`.
 `primary` = what C09 constrains + the mechanism state of the theorems (kind, ownership, freeze flags, creator-editable
@@ -32,6 +33,8 @@ structure D where
   kind : Kind := .base
   blk : Block := ⟨1, 1⟩
   st : Option State := none
+  /-- pre-3.1.0 storage layout: the `royalty_updated_at` item is absent (`XState.ruaAbsent`) -/
+  absent : Bool := false
 
 def parseKind (s : String) : Option Kind :=
   match s with
@@ -89,7 +92,7 @@ def b01 (b : Bool) : String := if b then "1" else "0"
 def verStr (v : Semver.Version) : String := s!"{v.major}.{v.minor}.{v.patch}"
 
 /-- `racc`: the model's own reading of the royalty rules for the line just executed (`-` when not applicable) -/
-def renderState (s : State) (racc : String := "-") : String :=
+def renderState (s : State) (racc : String := "-") (absent : Bool := false) : String :=
   let o := s.ownership
   let own := s!"{renderOpt o.owner}/{renderOpt o.pending}/{match o.pendingExpiry with | some e => expStr e | none => "-"}"
   let i := s.info
@@ -103,7 +106,7 @@ def renderState (s : State) (racc : String := "-") : String :=
   s!"k={kindStr s.kind} own={own} fz={b01 s.frozenInfo} cr={i.creator} " ++
   s!"desc={i.description.id}:{i.description.len} img={i.image.id} ext={ext} ec={renderOptBool i.explicitContent} " ++
   s!"roy={roy} n={s.count} toks={toks} fm={b01 s.frozenMeta} ue={b01 s.updEnabled}" ++
-  s!" ## ver={verStr s.ver} rua={s.royaltyUpdatedAt} stt={renderOpt i.startTradingTime} tx={toksX} ops={ops} racc={racc}"
+  s!" ## ver={verStr s.ver} rua={if absent then "-" else toString s.royaltyUpdatedAt} stt={renderOpt i.startTradingTime} tx={toksX} ops={ops} racc={racc}"
 
 def optBoolKv (ws : List String) (key : String) : Option (Option Bool) :=
   match kv ws key with
@@ -169,8 +172,8 @@ def parseMsg (ws : List String) : Option ExecMsg :=
   | some "enable" => some .enableUpdatable
   | _ => none
 
-def answer (ok : Bool) (st : Option State) (racc : String := "-") : String :=
-  (if ok then "ok " else "err ") ++ (match st with | some s => renderState s racc | none => "-")
+def answer (ok : Bool) (st : Option State) (racc : String := "-") (absent : Bool := false) : String :=
+  (if ok then "ok " else "err ") ++ (match st with | some s => renderState s racc absent | none => "-")
 
 def parseVer (str : String) : Option Semver.Version :=
   match str.splitOn "." with
@@ -178,21 +181,24 @@ def parseVer (str : String) : Option Semver.Version :=
   | _ => none
 
 /-- the model's own verdict on the royalty rules for an `UpdateCollectionInfo` that reaches the royalty block -/
-def raccOf (s : State) (b : Block) (sender : Addr) (m : ExecMsg) : String :=
+def raccOf (s : State) (absent : Bool) (b : Block) (sender : Addr) (m : ExecMsg) : String :=
   match m with
   | .updateCollectionInfo u _ =>
     match u.royalty with
-    | some (some r) => if uciOtherChecksOk s sender u then b01 (royaltyRulesOk s b r) else "-"
+    | some (some r) => if uciOtherChecksOk s sender u then b01 (!absent && royaltyRulesOk s b r) else "-"
     | _ => "-"
   | _ => "-"
 
-def runOp (d : D) (op : Op) (racc : String := "-") : D × String :=
+/-- one `xstep` of the environment layer (`XState` = the state + "royalty_updated_at is absent") -/
+def runX (d : D) (xo : XOp) (racc : String := "-") : D × String :=
   match d.st with
   | none => (d, answer false none)
   | some s =>
-    match step s op with
-    | .ok s' => ({ d with st := some s' }, answer true (some s') racc)
-    | .error _ => (d, answer false d.st racc)
+    match xstep ⟨s, d.absent⟩ xo with
+    | .ok x' => ({ d with st := some x'.core, absent := x'.ruaAbsent }, answer true (some x'.core) racc x'.ruaAbsent)
+    | .error _ => (d, answer false d.st racc d.absent)
+
+def runOp (d : D) (op : Op) (racc : String := "-") : D × String := runX d (.op op) racc
 
 def c09Step (d : D) (line : String) : D × String :=
   let ws := words line
@@ -214,8 +220,8 @@ def c09Step (d : D) (line : String) : D × String :=
       let (desc, img, ext, ec, roy) ← parseInfoCommon ws
       pure (instantiate d.kind d.blk s (coinsOf fu) ⟨minter, ⟨creator, desc, img, ext, ec, stt, roy⟩⟩)
     match r with
-    | some (.ok s) => ({ d with st := some s }, answer true (some s))
-    | some (.error _) => (d, answer false d.st)
+    | some (.ok s) => ({ d with st := some s, absent := false }, answer true (some s))
+    | some (.error _) => (d, answer false d.st "-" d.absent)
     | none => (d, "bad-op")
   | some "migrate" =>
     match ((kv ws "to").getD "updatable" |> parseKind) with
@@ -223,16 +229,21 @@ def c09Step (d : D) (line : String) : D × String :=
     | none => (d, "bad-op")
   | some "setver" =>
     match (kv ws "v").bind parseVer with
-    | some v => runOp d (.setVersion v)
+    | some v =>
+      -- `drop=1`: faithful pre-3.1.0 layout, the `royalty_updated_at` item is removed as well
+      if kv ws "drop" == some "1" then
+        let (d1, _) := runOp d (.setVersion v)
+        runX d1 .dropRoyaltyStamp
+      else runOp d (.setVersion v)
     | none => (d, "bad-op")
   | some "raw" =>
     -- a message variant unknown to the model: it changes nothing the property constrains. Whether the call itself
     -- succeeds is outside the projection (`res=` behind ` ## `): a new harmless message is DRIFT, not a failure.
-    (d, "raw " ++ (match d.st with | some s => renderState s ++ " res=err" | none => "-"))
+    (d, "raw " ++ (match d.st with | some s => renderState s "-" d.absent ++ " res=err" | none => "-"))
   | _ =>
     match parseMsg ws, natKv ws "s", pairListKv ws "funds" with
     | some m, some sender, some fu =>
-      let racc := match d.st with | some s => raccOf s d.blk sender m | none => "-"
+      let racc := match d.st with | some s => raccOf s d.absent d.blk sender m | none => "-"
       runOp d (.exec ⟨d.blk, sender, coinsOf fu, m⟩) racc
     | _, _, _ => (d, "bad-op")
 
